@@ -55,8 +55,9 @@ func (m *MDP) DecodeFromBytes(data []byte, df gopacket.DecodeFeedback) error {
 		df.SetTruncated()
 		return fmt.Errorf("MDP length %d too short", len(data))
 	}
-	m.Type = EthernetTypeMerakiDiscoveryProtocol
-	m.Length = len(data)
+	// Start from a zero layer: a reused layer must not keep the values of TLVs
+	// that this packet does not carry.
+	*m = MDP{Type: EthernetTypeMerakiDiscoveryProtocol, Length: len(data)}
 	offset := 28
 	m.PreambleData = data[:offset]
 
